@@ -87,6 +87,8 @@ def run(ch: Checker) -> None:
                      'serve_static_file is called with a request-derived path only from the static handler', 2)
     ch.rule('C13.5', 'the header map of a static-file response is created for that response (never a module-level / class-level map, not even as a default): '
                      'the response builders write Content-Encoding / Content-Length into the map they are given', 1)
+    ch.rule('C13.6', 'who may declare a content coding for a static response: only okResponse, when it compresses the body itself; serve_static_file hands it a header map without '
+                     'Content-Encoding (a coding guessed from the file NAME describes the file, not a transformation the client may undo to get the file back)', 1)
     ch.rule('C13.4', 'serve_static_file: open/read inside a try whose OSError handler returns NOT_FOUND_RESPONSE_PKT', 1)
 
     web = prog.class_named('HttpWebServerPlugin')
@@ -197,6 +199,43 @@ def run(ch: Checker) -> None:
                                  'a failing open()/read() is not answered with NOT_FOUND_RESPONSE_PKT')
     if opens == 0:
         ch.undecided('C13.1c', sf, 'def', 'no open() call found in serve_static_file')
+
+    # C13.6 no Content-Encoding set by the static handler
+    from ..consteval import ConstEval
+    ce6 = ConstEval(prog)
+    bad6 = None
+    n6 = 0
+    g6 = cfg_of(sf, prog, exc_edges=False)
+    for p in fpaths(g6):
+        ch.paths += 1
+        sym = Sym(p)
+        for i, st in p.stmts():
+            for c in walk_no_nested(st):
+                if isinstance(c, ast.Call) and (attr_chain(c.func) or '').split('.')[-1] in ('okResponse', 'build_http_response'):
+                    n6 += 1
+                    hk = [k.value for k in c.keywords if k.arg == 'headers']
+                    keys = []
+                    if hk:
+                        hv = sym.value(hk[0], i)
+                        for d in ast.walk(hv):
+                            if isinstance(d, ast.Dict):
+                                keys += [ce6.try_eval(sf.module, k) for k in d.keys if k is not None]
+                    # item stores into the map on the path
+                    for j, s2 in p.stmts():
+                        if j < i and isinstance(s2, ast.Assign) and isinstance(s2.targets[0], ast.Subscript):
+                            keys.append(ce6.try_eval(sf.module, s2.targets[0].slice))
+                        for c2 in walk_no_nested(s2):
+                            if j < i and isinstance(c2, ast.Call) and isinstance(c2.func, ast.Attribute) and c2.func.attr in ('update', 'setdefault') and c2.args:
+                                for d in ast.walk(c2.args[0]):
+                                    if isinstance(d, ast.Dict):
+                                        keys += [ce6.try_eval(sf.module, k) for k in d.keys if k is not None]
+                                    if isinstance(d, ast.Constant) and isinstance(d.value, bytes):
+                                        keys.append(d.value)
+                    if any(isinstance(k, bytes) and k.lower() == b'content-encoding' for k in keys):
+                        bad6 = ('serve_static_file puts Content-Encoding into the header map itself: the body is the file as it is on disk, so a client that undoes the advertised coding '
+                                'does not get the file\'s bytes back (and okResponse may add a second coding on top)', p.describe(18))
+    ch.check(bad6 is None and n6 > 0, 'C13.6', sf, 'no Content-Encoding from the static handler', 'the header map handed to okResponse carries no content coding (%d call path(s))' % n6,
+             bad6[0] if bad6 else 'no response builder call found', witness=bad6[1] if bad6 else None)
 
     # C13.5 fresh header map
     from .common import fresh_headers_check
